@@ -436,6 +436,9 @@ func qnameOf(r *dnsmsg.Msg) int {
 }
 
 // doExchange performs one exchange with its own unique question and records begin/end.
+// ctxHook, when set, is handed the cancel function of every exchange's context (staged cancellations)
+var ctxHook func(cancel context.CancelFunc)
+
 func doExchange(u exchanger, rng *rand.Rand, timeout time.Duration, quiet bool) (ok bool) {
 	ex := int(exCtr.Add(1))
 	id := uint16(rng.Intn(65536))
@@ -454,6 +457,9 @@ func doExchange(u exchanger, rng *rand.Rand, timeout time.Duration, quiet bool) 
 	}
 	ctx, cancel := context.WithTimeout(context.Background(), timeout)
 	defer cancel()
+	if ctxHook != nil {
+		ctxHook(cancel)
+	}
 	dl, _ := ctx.Deadline()
 	if !quiet {
 		if planOf != nil {
